@@ -11,7 +11,9 @@ Inductive query :=
   | QAdd (a : option adjk) (d n : Z)
   | QBdays (a : option adjk) (x y : Z)
   | QDrange (x y : Z)
-  | QSweep (a : option adjk) (d : Z).      (* is_bday d, adjust d, add d n for every n in [-40, 40] *)
+  | QSweep (a : option adjk) (d : Z)
+  | QClock (d : Z)                          (* clock(d): default adj *)
+  | QBump (a : option adjk) (d : Z) (toks : list (Z * Z)).   (* dt_bump(d, 'nb...', adj) *)      (* is_bday d, adjust d, add d n for every n in [-40, 40] *)
 
 Definition JR {A} (f : A -> J) (r : res A) : J :=
   match r with Ok a => f a | KeyError => JErr "KeyError" | OutOfFuel => JErr "OutOfFuel" end.
@@ -35,6 +37,8 @@ Definition run_query (q : query) : J :=
   | QDrange x y => JR JLZ (drange_1b hol wk month_of_ord t0 t1 T fuel dflt x y)
   | QSweep a d => JL (JB (is_bday hol wk d) :: JOF (adjust hol wk month_of_ord t0 t1 fuel (eff a) d) ::
                       map (fun n => JR JZ (add hol wk month_of_ord t0 t1 T fuel (eff a) d n)) (rng (-40) 81))
+  | QClock d => JR JZ (clock hol wk month_of_ord t0 t1 T fuel dflt d)
+  | QBump a d toks => JR JZ (dt_bump_b hol wk month_of_ord t0 t1 T fuel (eff a) d toks)
   end.
 End Run.
 
@@ -58,7 +62,8 @@ Inductive rg_op :=
 Definition needs_table (q : query) : bool :=
   match q with
   | QAdd _ _ n => add_uses_table n
-  | QBdays _ _ _ | QDrange _ _ | QSweep _ _ => true
+  | QBdays _ _ _ | QDrange _ _ | QSweep _ _ | QClock _ => true
+  | QBump _ _ toks => existsb (fun t => add_uses_table (fst t)) toks
   | _ => false
   end.
 Fixpoint run_rg (st : registry (tentry cal_args (list Z))) (ops : list rg_op) : list J :=
